@@ -16,7 +16,7 @@ for p in props:
         c=claimed[p]
         m["checks"].append({"property_id":p,
           "quick_cmd":f"/verif/bin/govc check -property {p} -tier quick",
-          "thorough_cmd":f"/verif/bin/govc check -property {p} -tier thorough",
+          "thorough_cmd":f"/verif/tools/thorough.sh {p}",
           "evidence_file":f"/verif/evidence/{p}.json",
           "replay_cmd_template":"/verif/bin/govc replay {path}",
           "engine":"govc",
